@@ -96,10 +96,16 @@ def _static(
     fn = fn.lstrip('/')  # since a URL, remove all leading /
     valid = False  # only a file found inside one of the roots is served
     for d in [Path(dawgie.context.fe_path).resolve(), Path(bdir).resolve()]:
-        ffn = (d / fn).resolve()
+        try:
+            # strict: a symlink loop must not yield a half resolved path
+            ffn = (d / fn).resolve(strict=True)
 
-        if ffn.is_dir():
-            ffn = (ffn / 'index.html').resolve()
+            if ffn.is_dir():
+                ffn = (ffn / 'index.html').resolve(strict=True)
+        except (OSError, RuntimeError):
+            ffn = d / fn
+            result += bytes(ffn) + b'     '
+            continue
         if not ffn.is_relative_to(d):
             result += b'attempted jail break'
             LOG.error('tried a jailbreak with %s from %s', ffn, d)
